@@ -28,6 +28,13 @@ named tables that are adversarial for totality).  c02_shape/synth2.rs turns each
 shaped with every text-class string over its roles; seeded random morx programs are added.
 A worker forks one child per stretch of jobs; a shared counter tells which job a dead child (stack overflow,
 abort, kill) or a child over its CPU budget was executing: that job gets an Abort / Timeout event.
+Round 4: MC_ShaperFonts also enumerates features whose lookup list has a boundary size (fam "cnt": 2^k - 1, 2^k,
+2^k + 1 lookup indices around the inline capacity of allsorts' scratch vector, ascending / descending / one lookup
+listed n times, GSUB and GPOS); MC_ShaperCalls enumerates every sequence of up to SeqLen calls on ONE Font object
+(map_glyphs with MatchingPresentation NotRequired / Required over texts without / with one / with two U+25CC /
+with U+25CC + variation selector, with or without shape + glyph_positions) beside a model of the one-entry glyph
+cache (invariants PutOnlyWhenEmpty, CacheHoldsPlain); each sequence is executed on a fresh Font object of several
+fonts, one event per step.  A quarter of all other jobs map their text with MatchingPresentation::Required.
 TLC (Trace_Shaper): judges every event with Shaper!CallFailures.
 """
 import concurrent.futures
@@ -96,6 +103,8 @@ NEEDED_FACTS = [
     "lkp_shape_err", "lkp_chain_terminal_applied", "morx_ligature_formed", "morx_ligature_at_run_end",
     "morx_ligature_at_run_start", "morx_ligature_inside_run", "morx_contextual_substitution",
     "morx_noncontextual_substitution", "morx_shape_err",
+    # round 4: lookup lists of boundary sizes
+    "synth_cnt_nontrivial", "cnt_every_lookup_of_the_list_applied", "cnt_every_lookup_applied_list_above_inline_capacity",
 ]
 
 # counters of the PLAN (computed by the harness from its inputs: fonts built from the TLC font cases x the TLC
@@ -121,6 +130,14 @@ NEEDED_PLAN = [
     "plan_jobs_morx_dont_advance_cycle", "plan_jobs_morx_dont_advance_chain_terminating",
     "plan_jobs_morx_index_at_table_end", "plan_jobs_morx_deleted_glyph", "plan_jobs_morx_random_program",
     "plan_jobs_morx_header_count_or_length_lies",
+    # round 4: lookup lists of boundary sizes; presentation; call sequences on one Font object
+    "plan_fonts_cnt", "plan_jobs_cnt_gsub", "plan_jobs_cnt_gpos", "plan_jobs_cnt_list_below_inline_capacity",
+    "plan_jobs_cnt_list_at_inline_capacity", "plan_jobs_cnt_list_one_above_inline_capacity",
+    "plan_jobs_cnt_list_above_inline_capacity", "plan_jobs_cnt_arr_distinct", "plan_jobs_cnt_arr_desc", "plan_jobs_cnt_arr_same",
+    "plan_jobs_required_presentation", "plan_jobs_required_presentation_dotted_circle",
+    "plan_jobs_required_presentation_dotted_circle_on_used_font",
+    "plan_call_sequences", "plan_jobs_seq", "plan_jobs_seq_map_only", "plan_jobs_seq_required_dotted_circle_on_filled_cache",
+    "plan_jobs_seq_required_dotted_circle_on_empty_cache", "plan_jobs_seq_plain_dotted_circle_on_filled_cache",
 ]
 
 FAMILY = {"arab": "Arabic", "syrc": "Syriac", "khmr": "Khmer", "mymr": "Myanmar", "mym2": "Myanmar",
@@ -270,6 +287,13 @@ def run(ctx):
     cases_path = ctx.path("cases.ndjson")
     unsorted_path = ctx.path("cases.unsorted.ndjson")
     fonts_path = cases_path + ".fonts"      # the harness looks for the font cases next to the text cases
+    calls_path = cases_path + ".calls"      # and for the call sequences
+    ccfg = "MC_ShaperCalls_quick.cfg" if ctx.quick else "MC_ShaperCalls_thorough.cfg"
+    call_cases = []
+
+    def call_sink(tag, payload):
+        if tag == "CASE":
+            call_cases.append(payload)
     n_cases = [0]
     font_cases = []
 
@@ -278,19 +302,22 @@ def run(ctx):
             font_cases.append(payload)
     # the two generators run side by side (the font cases take about a second)
     with concurrent.futures.ThreadPoolExecutor(max_workers=1) as side:
-        fut = side.submit(vlib.run_tlc, ctx, "MC_ShaperFonts", fcfg, "mcfonts", 2, 600, None, None, "2g", False, font_sink)
+        fut = side.submit(lambda: (vlib.run_tlc(ctx, "MC_ShaperFonts", fcfg, "mcfonts", 2, 600, None, None, "2g", False, font_sink),
+                                   vlib.run_tlc(ctx, "MC_ShaperCalls", ccfg, "mccalls", 2, 600, None, None, "2g", False, call_sink)))
         with open(unsorted_path, "w") as fc:
             def sink(tag, payload):
                 if tag == "CASE":
                     fc.write(payload + "\n")
                     n_cases[0] += 1
             mc = vlib.run_tlc(ctx, "MC_Shaper", cfg, "mc", workers=8, timeout=600 if ctx.quick else 2400, sink=sink)
-        mcf = fut.result()
+        mcf, mcc = fut.result()
     ctx.note("MC_Shaper: %d states generated, %d distinct, depth %d, %d class strings (%.1fs)" %
              (mc.generated, mc.distinct, mc.depth, n_cases[0], mc.wall))
     ctx.note("MC_ShaperFonts: %d states generated, %d distinct, depth %d, %d font cases (%.1fs)" %
              (mcf.generated, mcf.distinct, mcf.depth, len(font_cases), mcf.wall))
-    if n_cases[0] == 0 or not font_cases:
+    ctx.note("MC_ShaperCalls: %d states generated, %d distinct, depth %d, %d call sequences (%.1fs)" %
+             (mcc.generated, mcc.distinct, mcc.depth, len(call_cases), mcc.wall))
+    if n_cases[0] == 0 or not font_cases or not call_cases:
         raise vlib.ToolError("no CASE lines generated")
     # TLC's workers print in a different order on every run; the plan hashes case indices, so the
     # case files are put in a canonical order (the run depends on the seed only)
@@ -300,7 +327,12 @@ def run(ctx):
     font_cases.sort()
     with open(fonts_path, "w") as f:
         f.write("\n".join(font_cases) + "\n")
+    call_cases.sort()
+    with open(calls_path, "w") as f:
+        f.write("\n".join(call_cases) + "\n")
+    cc_objs = [json.loads(x) for x in call_cases]
     fc_objs = [json.loads(x) for x in font_cases]
+    cnt = [c for c in fc_objs if c["fam"] == "cnt"]
     lkp = [c for c in fc_objs if c["fam"] == "lkp"]
     # what TLC says about the font cases (TLC data, independent of allsorts)
     tlc_counts = {
@@ -319,6 +351,16 @@ def run(ctx):
         "morx_font_cases": sum(1 for c in fc_objs if c["fam"] == "mx"),
         "morx_ligature_cases": sum(1 for c in fc_objs if c.get("kind") == "lig"),
         "morx_adversarial_cases": sum(1 for c in fc_objs if c.get("kind") == "adv"),
+        "lookup_list_size_cases": len(cnt),
+        "lookup_lists_that_spill_the_inline_capacity": sum(1 for c in cnt if c["spill"]),
+        "lookup_lists_exactly_at_inline_capacity": sum(1 for c in cnt if c["n"] == 128),
+        "lookup_lists_one_above_inline_capacity": sum(1 for c in cnt if c["n"] == 129),
+        "lookup_lists_with_duplicates_only": sum(1 for c in cnt if c["napply"] == 1 and c["n"] > 1),
+        "call_sequences": len(cc_objs),
+        "call_sequences_required_lookup_of_dotted_circle_meets_filled_cache": sum(1 for c in cc_objs if c["req_on_filled"]),
+        "call_sequences_with_cache_hit": sum(1 for c in cc_objs if c["hits"]),
+        "call_sequences_cache_never_filled": sum(1 for c in cc_objs if c["fill"] == 0),
+        "call_sequences_cache_filled_after_first_step": sum(1 for c in cc_objs if c["fill"] > 1),
     }
     zero = [k for k, v in tlc_counts.items() if not v]
     if zero:
@@ -336,7 +378,8 @@ def run(ctx):
     # errors that must not mask a violation: they are raised at the end, and only when nothing new was found
     deferred = []
     # every font case became a font of the plan (inputs only)
-    n_case_fonts = rep.get("plan_fonts_lkp", 0) + rep.get("plan_fonts_morx", 0) + rep.get("plan_fonts_morxadv", 0)
+    n_case_fonts = (rep.get("plan_fonts_lkp", 0) + rep.get("plan_fonts_morx", 0) + rep.get("plan_fonts_morxadv", 0)
+                    + rep.get("plan_fonts_cnt", 0))
     if n_case_fonts != len(fc_objs):
         deferred.append("%d font cases but %d fonts of the plan are built from them" % (len(fc_objs), n_case_fonts))
     vac_plan = [k for k in NEEDED_PLAN if not rep.get(k)]
@@ -427,8 +470,9 @@ def run(ctx):
                 "is distinct by construction; a job is non-trivial when shaping changed the glyph sequence, placed or "
                 "attached a glyph, or returned Err",
         "samples": samples if samples else [base],
-        "states": mc.distinct + mcf.distinct,
-        "transitions": mc.generated + mcf.generated,
+        "states": mc.distinct + mcf.distinct + mcc.distinct,
+        "transitions": mc.generated + mcf.generated + mcc.generated,
+        "call_sequences_from_tlc": len(cc_objs),
         "traces_validated_against_impl": n_events,
         "class_strings": n_cases[0],
         "font_cases_from_tlc": tlc_counts,
@@ -449,10 +493,10 @@ def run(ctx):
                              "(attachment, characters, glyph id, panic, positions length, process death, timeout); "
                              "the conforming event accepted",
         "exhaustive": False,
-        "explanation": "engine model and recursion-budget model exhaustively checked by TLC (configs %s, %s); class strings "
-                       "and font cases exhaustive up to the bounds, their concretisation and the font/configuration product "
+        "explanation": "engine model, recursion-budget model and glyph-cache model exhaustively checked by TLC (configs %s, %s, %s); class strings, "
+                       "font cases and call sequences exhaustive up to the bounds, their concretisation and the font/configuration product "
                        "are sampled as described in rule; synthesized fonts x text-class strings over their roles are "
-                       "exhaustive up to the bound (with the length caps named in rule)" % (cfg, fcfg),
+                       "exhaustive up to the bound (with the length caps named in rule)" % (cfg, fcfg, ccfg),
     }
     vlib.finish(ctx, LEVEL, coverage, violations, ASSUMPTIONS)
 
